@@ -4,10 +4,10 @@ from common import coq_options, coq_string
 import obs
 
 ID = "C04"
-REQUIRES = ["Agree", "C04Spec", "Truth"]
+REQUIRES = ["ObsCheck", "Agree", "C04Spec", "Truth"]
 THEOREM_REQUIRES = ["C04"]
-THEOREMS = ["C04_holds_bool"]
-PROOF_FILES = ["Proofs/GenInv.v", "Proofs/C11Proof.v", "Proofs/C11Link.v", "Proofs/C04Proof.v", "Properties/C04.v"]
+THEOREMS = ["C04_holds_bool", "C04_holds", "C04_holds_none"]
+PROOF_FILES = ["Proofs/GenInv.v", "Proofs/C11Proof.v", "Proofs/C11Link.v", "Proofs/C04Proof.v", "Proofs/C04Obs.v", "Properties/C04.v"]
 RULE = ("1..8 groups with 1..12 variables each, binding indices a random injection into sparse ranges, declaration "
         "order a random interleaving across groups, all resource kinds mixed (uniform/storage buffers of struct, "
         "array, scalar, vector, matrix; sampled/depth/storage textures; samplers); bounded-exhaustive part: all "
@@ -85,12 +85,53 @@ def run_cases(plain, cases_, workdir, tag):
     return obs.attach(plain, cases_, workdir, tag, lambda c: True, 40 if "search" not in tag else 0)
 
 
+RK = {"Buffer": "RKBuffer", "TextureView": "RKTexture", "Sampler": "RKSampler"}
+
+
+def coq_obs_clause(r, real):
+    """Coq-evaluated: Spec/Obs.v on the extracted output = the device calls the compiled module made on the shim"""
+    dl = r["obs"]["device_log"]
+    built = []
+    for b in dl.get("bind_groups", []):
+        fb = b["from_bindings"]
+        if not fb.get("layout_is_own", True):
+            return "false"
+        ents = "; ".join("(%d%%N, %s, %s)" % (e["binding"], coq_string(e["field"]), RK.get(e["kind"], "RKBuffer")) for e in fb["entries"])
+        lay = "; ".join("%d%%N" % e["binding"] for e in fb["layout_entries"])
+        built.append("(%d%%N, [%s], [%s])" % (b["group"], lay, ents))
+    single, all_struct, all_fn = [], [], []
+    for s_ in dl.get("set", []):
+        calls = "[" + "; ".join("(%d%%N, %d%%N)" % (c_["index"], c_["bind_group_tag_group"]) for c_ in s_["calls"]) + "]"
+        if any(c_["offsets"] for c_ in s_["calls"]):
+            return "false"
+        how = s_["how"]
+        if how.startswith("BindGroups"):
+            all_struct.append(calls)
+        elif how.startswith("BindGroup") and how.endswith("::set"):
+            single.append("(%d%%N, %s)" % (int(how[len("BindGroup"):].split(":")[0]), calls))
+        else:
+            all_fn.append(calls)
+    pl = dl.get("pipeline_layout") or {}
+    if not pl.get("layouts_are_own", True):
+        return "false"
+    pls = []
+    for x in pl.get("bind_group_layouts", []):
+        lab = x.get("label") or ""
+        if not lab.startswith("LayoutDescriptor") or not lab[len("LayoutDescriptor"):].isdigit():
+            return "false"
+        pls.append("(%s%%N, [%s])" % (lab[len("LayoutDescriptor"):], "; ".join("%d%%N" % e["binding"] for e in x.get("entries", []))))
+    return ("obs_built_ok %s [%s] && obs_sets_ok %s [%s] [%s] [%s] && obs_pl_ok %s [%s]"
+            % (real, "; ".join(built), real, "; ".join(single), "; ".join(all_struct), "; ".join(all_fn), real, "; ".join(pls)))
+
+
 def verdict_expr(c, r, ir, real):
     ob = "true"
     if "obs" in r and r.get("result") == "ok":
         ok, why = obs.check_c04(c["truth"], r) if obs.usable(r) else (False, "module did not build / run on the shim: %s" % str(r.get("obs"))[:300])
         c["note"] = why
         ob = "true" if ok else "false"
+        if obs.usable(r):
+            ob += " && " + coq_obs_clause(r, real)
     return _verdict(c, r, ir, real).replace("OBS", ob)
 
 
